@@ -65,7 +65,8 @@ def verify_keymap() -> None:
 
 
 def rs_setup_ops(scn: Dict[str, Any], slot: int = 0) -> List[list]:
-    ops: List[list] = [["m.new", slot, {"por": bool(scn.get("por")), "pce500_map": bool(scn.get("pce500_map"))}]]
+    ops: List[list] = [["m.new", slot, {"por": bool(scn.get("por")), "pce500_map": bool(scn.get("pce500_map")),
+                                        "expand": rs_expand(scn)}]]
     rom = [0] * ROM_SIZE
     tail = scn["prog"]["rom_tail"]
     rom[ROM_SIZE - 6:] = tail
@@ -87,6 +88,12 @@ def rs_setup_ops(scn: Dict[str, Any], slot: int = 0) -> List[list]:
     return ops
 
 
+def rs_expand(scn: Dict[str, Any]) -> List[list]:
+    """RAM-expansion overlays are part of how the machine is put together (like the ROM image): a restarted
+    machine gets them again, empty; their contents must come from the bundle."""
+    return [[int(s), int(n), f"RAM Expansion ({int(n) // 1024}KB)"] for s, n in scn.get("expand", [])]
+
+
 def rs_event(op: list, slot: int, scn: Dict[str, Any], scratch: str) -> List[list]:
     at, kind = op[0], op[1]
     if kind == "key":
@@ -96,7 +103,8 @@ def rs_event(op: list, slot: int, scn: Dict[str, Any], scratch: str) -> List[lis
     if kind == "ackisr":
         return [[at, "m.ackisr", slot, op[2]]]
     if kind == "restart":
-        return [[at, "m.restart", slot, os.path.join(scratch, f"snap-{os.getpid()}-{at}.pcsnap"), {}]]
+        return [[at, "m.restart", slot, os.path.join(scratch, f"snap-{os.getpid()}-{at}.pcsnap"),
+                 {"expand": rs_expand(scn)}]]
     if kind == "rewind":
         return [[at, "m.rewind", slot, os.path.join(scratch, f"snap-{os.getpid()}-{at}.pcsnap"), int(op[2])]]
     if kind == "scramble":
@@ -271,6 +279,8 @@ def build_py_machine(scn: Dict[str, Any]):
     rom = bytearray(ROM_SIZE)
     rom[ROM_SIZE - 6:] = bytes(scn["prog"]["rom_tail"])
     emu.load_rom(bytes(rom))
+    for xs, xn in scn.get("expand", []):
+        emu.expand_ram(int(xn), int(xs))
     raw = emu.memory.external_memory
     for addr, data in scn["prog"]["image"]:
         raw[addr:addr + len(data)] = bytes(data)
@@ -378,6 +388,8 @@ def build_py_fresh(scn: Dict[str, Any]):
     rom = bytearray(ROM_SIZE)
     rom[ROM_SIZE - 6:] = bytes(scn["prog"]["rom_tail"])
     emu.load_rom(bytes(rom))
+    for xs, xn in scn.get("expand", []):
+        emu.expand_ram(int(xn), int(xs))
     return emu
 
 
